@@ -246,6 +246,14 @@ def gen_case(rng, uid):
         # a base-class annotation is only "shadowed" while the subclass's own annotation of that name survived the de-duplication
         own = {a["name"] for a in c["attrs"]}
         c["base_attrs"] = [b for b in c["base_attrs"] if b["rel"] != "shadowed-by-subclass-annotation" or b["name"] in own]
+    # ... except that a constructor parameter may be asked for once more as an attribute (the constructor only reads it)
+    for c in comps.values():
+        cands = [a for a in c["ctor"] if a["rel"] in ("plain", "both", "subclass", "prefixed") and not a["name"].startswith("_")
+                 and all(b["name"] != a["name"] for b in c["attrs"] + c["base_attrs"])]
+        if cands and rng.random() < 0.25:
+            dup = dict(rng.choice(cands))
+            dup["also_ctor"] = True
+            c["attrs"].append(dup)
     twin = None
     if ncomp >= 2 and rng.random() < 0.25:
         # two components that are instances of ONE class; its constructor takes a flag (delivered under the component
@@ -543,6 +551,8 @@ def run_case(acc, case):
                 if r[0] == "error":
                     errors.add(r[1])
                 _count_rel(acc, a, cn, order)
+                if a.get("also_ctor"):
+                    acc.ev("rel:constructor-parameter-also-requested-as-attribute")
                 if a in c["base_attrs"]:
                     acc.ev("rel:inherited-annotation")
         for m in case["modes"]:
